@@ -227,7 +227,7 @@ impl Check for C06 {
     fn run(c: &PipeCase, ctx: &mut Ctx) -> Result<(), Violation> {
         record_world(&c.t, ctx);
         record_sched(c, ctx);
-        let msgs = to_dlts(&c.t.trace, 0);
+        let msgs = to_dlts(&c.t.trace, c.t.index_base);
         let r = run_pipeline(msgs, &c.pipe, &c.sched, ctx)?;
         ctx.event_u64(r.delivered.len() as u64);
         ctx.event_u64(r.table.len() as u64);
@@ -324,7 +324,7 @@ impl Check for C13 {
         if let Some(r) = &c.remote {
             return run_remote_leg(c, r, ctx);
         }
-        let msgs = to_dlts(&c.t.trace, 0);
+        let msgs = to_dlts(&c.t.trace, c.t.index_base);
         let reference = run_reference(msgs.clone(), &c.pipe, ctx)?;
         adlt_verif_seam::probes::reset();
         let r = run_pipeline(msgs, &c.pipe, &c.sched, ctx)?;
